@@ -6,6 +6,7 @@ import IppModel.Model.Json
 import IppModel.Model.Cost
 import IppModel.Model.Http
 import IppModel.Model.Cli
+import IppModel.Model.Tls
 namespace Ipp.Ops2
 open Ipp Ipp.Gen Ipp.Text
 
@@ -300,6 +301,22 @@ def dispatch2 (op : String) (args : List SExp) : Option String :=
            s!"exit={code} reqs=({" ".intercalate (reqs.map fun r => "(" ++ showReq r ++ ")")})"
          | none => "(bad-arg)")
      | _, _ => "(bad-arg)")
+  | "tlscase", [.atom be, .atom cl, .atom ig, .atom root, .atom cert] =>
+    some (
+      let b : Option Backend := if be == "native-tls" then some .nativeTls else if be == "rustls" then some .rustls else none
+      let c : Option ClientKind := if cl == "blocking" then some .blocking else if cl == "async" then some .async else none
+      let i : Option IgnoreArg := if ig == "unset" then some .unset else if ig == "false" then some .setFalse else if ig == "true" then some .setTrue else none
+      let r : Option RootArg := if root == "none" then some .none else if root == "pem" then some .correctPem else if root == "der" then some .correctDer
+        else if root == "unrelated" then some .unrelated else none
+      let k : Option CertKind := if cert == "valid" then some .valid else if cert == "wrongname" then some .wrongName else if cert == "expired" then some .expired
+        else if cert == "selfsigned" then some .selfSigned else if cert == "unknownca" then some .unknownCa else none
+      match b, c, i, r, k with
+      | some b, some c, some i, some r, some k =>
+        let show_ (a : Bool) := if a then "accepted app=+" else "rejected app=0"
+        -- model ## what the property demands (accept iff opted out, or valid certificate with the correct root)
+        let should := i == .setTrue || (k == .valid && (r == .correctPem || r == .correctDer))
+        s!"{show_ (accepts c b i r k)} ## {show_ should}"
+      | _, _, _, _, _ => "(bad-arg)")
   | "thm10", [.atom k, .atom _, .atom j, .atom p, .list (.atom "calls" :: calls), c] =>
     some (match opKindOf k, hexToNat j, hexToBytes p, calls.mapM readCall, readComponents c with
      | some k, some j, some p, some calls, some u =>
